@@ -1616,3 +1616,39 @@ impl<const N: usize> sscli__PayloadCodec<N> {
             self.cipher.decode(&self.context, &mut self.session, src, Tracked(vcache))
         }
     }
+
+//@@ octo-squirrel/src/protocol/shadowsocks.rs:27-47  mod aead / fn openssl_bytes_to_key  sha=7641dae4dfdc4611
+fn ssaeadk__openssl_bytes_to_key<const N: usize>(password: &[u8]) -> [u8; N] {
+        let mut encoded: [u8; N] = [0; N];
+        let size = encoded.len();
+        let mut hasher = Md5::new();
+        hasher.update(password);
+        let mut password_digest = hasher.finalize_reset();
+        let mut container: Vec<u8> = vec![0; password.len() + password_digest.len()];
+        let len = size.min(password_digest.len());
+        encoded[..len].copy_from_slice(&password_digest);
+        let mut index = password_digest.len();
+        while index < size {
+            let len = password_digest.len();
+            container.v_range_mut(0,len).copy_from_slice(&password_digest);
+            container.v_range_mut(len,container.len()).copy_from_slice(password);
+            hasher.update(&container);
+            password_digest = hasher.finalize_reset();
+            encoded[index..].copy_from_slice(&password_digest[..password_digest.len().min(size - index)]);
+            index += password_digest.len();
+        }
+        encoded
+    }
+
+//@@ octo-squirrel/src/protocol/shadowsocks.rs:70-80  mod aead_2022 / fn password_to_keys  sha=1241d19edc88b140
+fn ss22k__password_to_keys<const N: usize>(password: &str) -> Result<([u8; N], Vec<[u8; N]>), base64ct::Error> {
+        let split = password.v_split_c(':');
+        let mut identity_keys = Vec::new();
+        for s in split {
+            let mut bytes = [0; N];
+            Base64::decode(s, &mut bytes)?;
+            identity_keys.push(bytes);
+        }
+        let enc_key = identity_keys.remove(identity_keys.len() - 1);
+        Ok((enc_key, identity_keys))
+    }
